@@ -298,6 +298,30 @@ class Resolver(object):
         return [d for d in self.defs.get(name, []) if d is not None]
 
 
+def linear(node):
+    """Linear normal form of an integer expression built with + - and integer constants:
+    (frozenset of (term text, coefficient), constant). Non-linear sub-terms are opaque texts."""
+    terms = {}
+    const = [0]
+
+    def add(n, sign):
+        if isinstance(n, ast.BinOp) and isinstance(n.op, ast.Add):
+            add(n.left, sign)
+            add(n.right, sign)
+        elif isinstance(n, ast.BinOp) and isinstance(n.op, ast.Sub):
+            add(n.left, sign)
+            add(n.right, -sign)
+        elif isinstance(n, ast.UnaryOp) and isinstance(n.op, ast.USub):
+            add(n.operand, -sign)
+        elif isinstance(n, ast.Constant) and isinstance(n.value, int) and not isinstance(n.value, bool):
+            const[0] += sign * n.value
+        else:
+            t = norm(n)
+            terms[t] = terms.get(t, 0) + sign
+    add(node, 1)
+    return frozenset((t, c) for t, c in terms.items() if c != 0), const[0]
+
+
 def cmp_parts(test):
     """(left, op, right) nodes+op string for a single-operator Compare, else None."""
     ops = {ast.Lt: "<", ast.LtE: "<=", ast.Gt: ">", ast.GtE: ">=", ast.Eq: "==", ast.NotEq: "!=",
